@@ -111,6 +111,14 @@ def print_enum(t, vals):
     return "\n".join(lines)
 
 
+def dir_split(rng, dirs):
+    """(directives kept on the definition, directives moved to the extension): type-level directives may arrive through
+    an `extend <kind> Name @d ...` as well."""
+    if dirs and rng.random() < 0.4:
+        return "", dirs
+    return dirs, ""
+
+
 def type_chunks(rng, s, t, split):
     """Definition text(s) for one type; with `split` part of it moves into `extend` definitions."""
     head = smodel._desc(t.description)
@@ -123,15 +131,17 @@ def type_chunks(rng, s, t, split):
         vals = list(t.values)
         if split and len(vals) > 1:
             k = rng.randint(1, len(vals) - 1)
+            dirs, xdirs = dir_split(rng, dirs)
             return ["%senum %s%s {\n%s\n}" % (head, t.name, dirs, print_enum(t, vals[:k])),
-                    "extend enum %s {\n%s\n}" % (t.name, print_enum(t, vals[k:]))]
+                    "extend enum %s%s {\n%s\n}" % (t.name, xdirs, print_enum(t, vals[k:]))]
         return ["%senum %s%s {\n%s\n}" % (head, t.name, dirs, print_enum(t, vals))]
     if t.kind == "UNION":
         mem = list(t.members)
         if split and len(mem) > 1:
             k = rng.randint(1, len(mem) - 1)
+            dirs, xdirs = dir_split(rng, dirs)
             return ["%sunion %s%s = %s" % (head, t.name, dirs, " | ".join(mem[:k])),
-                    "extend union %s = %s%s" % (t.name, "| " if rng.random() < 0.3 else "", " | ".join(mem[k:]))]
+                    "extend union %s%s = %s%s" % (t.name, xdirs, "| " if rng.random() < 0.3 else "", " | ".join(mem[k:]))]
         return ["%sunion %s%s = %s%s" % (head, t.name, dirs, "| " if rng.random() < 0.2 else "", " | ".join(mem))]
     if t.kind == "INPUT_OBJECT":
         fl = list(t.fields)
@@ -140,14 +150,16 @@ def type_chunks(rng, s, t, split):
             return "\n".join(smodel._desc(a.description, "  ") + "  " + print_arg(a) for a in fs)
         if split and len(fl) > 1:
             k = rng.randint(1, len(fl) - 1)
-            return ["%sinput %s%s {\n%s\n}" % (head, t.name, dirs, body(fl[:k])), "extend input %s {\n%s\n}" % (t.name, body(fl[k:]))]
+            dirs, xdirs = dir_split(rng, dirs)
+            return ["%sinput %s%s {\n%s\n}" % (head, t.name, dirs, body(fl[:k])), "extend input %s%s {\n%s\n}" % (t.name, xdirs, body(fl[k:]))]
         return ["%sinput %s%s {\n%s\n}" % (head, t.name, dirs, body(fl))]
     fl = list(t.fields.values())
     body = lambda fs: "\n".join(print_field(f) for f in fs)  # noqa
     if t.kind == "INTERFACE":
         if split and len(fl) > 1:
             k = rng.randint(1, len(fl) - 1)
-            return ["%sinterface %s%s {\n%s\n}" % (head, t.name, dirs, body(fl[:k])), "extend interface %s {\n%s\n}" % (t.name, body(fl[k:]))]
+            dirs, xdirs = dir_split(rng, dirs)
+            return ["%sinterface %s%s {\n%s\n}" % (head, t.name, dirs, body(fl[:k])), "extend interface %s%s {\n%s\n}" % (t.name, xdirs, body(fl[k:]))]
         return ["%sinterface %s%s {\n%s\n}" % (head, t.name, dirs, body(fl))]
     ifs = list(t.interfaces)
     impl = lambda x: (" implements " + " & ".join(x)) if x else ""  # noqa
@@ -159,8 +171,9 @@ def type_chunks(rng, s, t, split):
             return ["%stype %s%s%s {\n%s\n}" % (head, t.name, impl(ifs[:ki]), dirs, body(fl[:k])),
                     "extend type %s%s" % (t.name, impl(ifs[ki:])),
                     "extend type %s {\n%s\n}" % (t.name, body(fl[k:]))]
+        dirs, xdirs = dir_split(rng, dirs)
         return ["%stype %s%s%s {\n%s\n}" % (head, t.name, impl(ifs[:ki]), dirs, body(fl[:k])),
-                "extend type %s%s {\n%s\n}" % (t.name, impl(ifs[ki:]), body(fl[k:]))]
+                "extend type %s%s%s {\n%s\n}" % (t.name, impl(ifs[ki:]), xdirs, body(fl[k:]))]
     if split and ifs and rng.random() < 0.5:
         return ["%stype %s%s {\n%s\n}" % (head, t.name, dirs, body(fl)), "extend type %s%s" % (t.name, impl(ifs))]
     if not fl:
